@@ -838,34 +838,47 @@ def P_C11 (v : Variant) (attr : Toks) (item : Item) (view : View) : Bool :=
 
 /-! ## C12 — async methods -/
 
+/-- how an async source method must be declared in a trait -/
+def asyncDeclOk (hasAT send : Bool) (src g : Sig) : Bool :=
+  g.async_ == (src.async_ && hasAT) &&
+  g.output == (if src.async_ && !hasAT then some (futureWrapper src.output send) else src.output)
+
+/-- the delegating method keeps the source's asyncness and return type, and awaits iff async -/
+def asyncImplOk (src : Sig) (m : GenMember) : Bool :=
+  match m with
+  | .fn _ g (some body) =>
+      g.async_ == src.async_ && g.output == src.output &&
+      (body.drop (body.length - 2) == [p '.', i "await"]) == src.async_
+  | _ => false
+
+/-- `async_trait` is re-applied to a generated item iff the user wrote it on the input -/
+def asyncAttrsOk (itemAttrs as : List Attr) : Bool :=
+  (itemAttrs.filter (fun a => a.subKind == .asyncTrait)).all (fun a => as.contains a) &&
+  as.all (fun a => a.subKind != .asyncTrait || itemAttrs.contains a)
+
+def asyncDeclOkM (hasAT send : Bool) (src : Sig) (m : GenMember) : Bool :=
+  match m.sig? with
+  | some g => asyncDeclOk hasAT send src g
+  | none => false
+
+def isSelectorLike (t : GenTrait) : Bool := t.members.all (fun m => m.sig?.isNone) && t.members.length ≤ 1
+
+def Item.srcSigs : Item → List Sig
+  | .trait t => (t.members.filterMap (fun mm => match mm with | .fn f => some f | _ => none)).map (·.sig)
+  | item => item.sourceFns.map (·.sig)
+
 def P_C12 (v : Variant) (attr : Toks) (item : Item) (view : View) : Bool :=
   match effectiveOpts v attr item with
   | none => false
   | some o =>
     let hasAT := containsAsyncTrait item.attrs
     let send := o.futureSendValue
-    let srcSigs : List Sig :=
-      match item with
-      | .trait t => t.fns.map (·.sig)
-      | _ => item.sourceFns.map (·.sig)
-    let declOk (src : Sig) (g : Sig) : Bool :=
-      g.async_ == (src.async_ && hasAT) &&
-      g.output == (if src.async_ && !hasAT then some (futureWrapper src.output send) else src.output)
-    let implOk (src : Sig) (m : GenMember) : Bool :=
-      match m with
-      | .fn _ g (some body) =>
-          g.async_ == src.async_ && g.output == src.output &&
-          (body.drop (body.length - 2) == [p '.', i "await"]) == src.async_
-      | _ => false
-    let attrsOk (as : List Attr) : Bool :=
-      (item.attrs.filter (fun a => a.subKind == .asyncTrait)).all (fun a => as.contains a) &&
-      as.all (fun a => a.subKind != .asyncTrait || item.attrs.contains a)
     (traitsOf view.items).all (fun t =>
-      (t.members.all (fun m => m.sig?.isNone) && t.members.length ≤ 1) ||   -- the selector trait
-      (zipAll (fun src m => match m.sig? with | some g => declOk src g | none => false)
-         srcSigs (t.members.filter (fun m => m.sig?.isSome)) && attrsOk t.attrs)) &&
+      (isSelectorLike t && t.attrs.isEmpty) ||
+      (zipAll (asyncDeclOkM hasAT send) item.srcSigs (t.members.filter (fun m => m.sig?.isSome)) &&
+        asyncAttrsOk item.attrs t.attrs)) &&
     (match mainImpl? view with
-     | some im => zipAll implOk srcSigs im.members && attrsOk im.attrs
+     | some im => zipAll asyncImplOk item.srcSigs im.members && asyncAttrsOk item.attrs im.attrs
      | none => false)
 
 /-! ## C14 — static delegation introduces no trait objects and no boxing -/
